@@ -633,8 +633,17 @@ func probeWdrop() string {
 		return "1"
 	}
 	h.wait()
-	if f, st := fc.cliReadFrame(); st == 0 && len(f) == 8192 {
-		return "0"
+	// the writer goroutine may not have run yet on a loaded machine: give a frame that is not dropped time to arrive
+	// (a wrong answer here would make the model predict drops for the whole process)
+	deadline := time.Now().Add(5 * time.Second)
+	for time.Now().Before(deadline) {
+		if f, st := fc.cliReadFrame(); st == 0 {
+			if len(f) == 8192 {
+				return "0"
+			}
+			return "1"
+		}
+		time.Sleep(time.Millisecond)
 	}
 	return "1"
 }
